@@ -36,8 +36,9 @@ type Cfg struct {
 	ConstructorDeck bool `json:"constructor_deck,omitempty"`
 	// Prelude: the game object has played PreludeSteps operations of this other
 	// hand before it is given the options of the hand under test (ApplyOptions)
-	Prelude      *Cfg `json:"prelude,omitempty"`
-	PreludeSteps int  `json:"prelude_steps,omitempty"`
+	Prelude      *Cfg  `json:"prelude,omitempty"`
+	PreludeSteps int   `json:"prelude_steps,omitempty"`
+	chipUnit     int64 // the table's betting unit when no big blind is configured
 }
 
 // Positions exactly as table/internal.go derives them from the seat manager.
@@ -80,6 +81,18 @@ func (c *Cfg) Positions(i int) []string {
 		return []string{"ug"}
 	}
 	return []string{}
+}
+
+// unit: the chip unit stacks are sized in (the big blind; in button-blind games
+// the unit the button blind and the ante were drawn from)
+func (c *Cfg) unit() int64 {
+	if c.BB > 0 {
+		return c.BB
+	}
+	if c.chipUnit > 0 {
+		return c.chipUnit
+	}
+	return maxI64(1, maxI64(c.DB, c.Ante))
 }
 
 func (c *Cfg) Options() *pf.GameOptions {
@@ -130,6 +143,7 @@ type Profile struct {
 	Showdown    bool // favour hands that reach a showdown
 	Cuts        bool // C07: rebuild from JSON at drawn wait points
 	NoCuts      bool // never restore from JSON (stages that need the live object)
+	TryRaises   bool // C12: also request raises that the engine did not offer
 	NoBBGames   bool // also generate button-blind / ante-only games (no seat holds "bb", SB = BB = 0)
 	noPrelude   bool
 	SmallStacks bool // C05/C12: tight stacks so that bounds bite
@@ -194,9 +208,10 @@ func GenCfg(rt *rapid.T, pr Profile) *Cfg {
 		// the usual short-deck format: antes and a blind on the button only
 		c.NoBBSeat, c.NoSBSeat, c.DeadSB = true, false, false
 		unit := c.BB
+		c.chipUnit = unit
 		c.SB, c.BB = 0, 0
 		c.DB = pickI64(rt, "buttonBlind", 0, unit, unit, 2*unit)
-		c.Ante = pickI64(rt, "noBBAnte", unit, unit, unit/2+1, 3*unit)
+		c.Ante = pickI64(rt, "noBBAnte", unit, unit, unit/2+1, 3*unit, 0) // 0 with no button blind: a free hand, nobody is forced to put in a chip
 	}
 	c.Limit = "no"
 	if rapid.IntRange(0, 4).Draw(rt, "limit") == 0 {
@@ -214,7 +229,7 @@ func GenCfg(rt *rapid.T, pr Profile) *Cfg {
 			if pr.SmallStacks {
 				hi = 14
 			}
-			c.Bank = append(c.Bank, c.Ante+c.BB*int64(rapid.IntRange(2, hi).Draw(rt, "bbs"))+int64(rapid.IntRange(0, 2).Draw(rt, "odd")))
+			c.Bank = append(c.Bank, maxI64(1, c.Ante+c.unit()*int64(rapid.IntRange(2, hi).Draw(rt, "bbs"))+int64(rapid.IntRange(0, 2).Draw(rt, "odd"))))
 		}
 	}
 	c.Deck, c.Theme = GenDeck(rt, c, pr)
@@ -244,9 +259,9 @@ func genBankroll(rt *rapid.T, c *Cfg, pr Profile) int64 {
 	case 3:
 		b = c.Ante + c.SB + jit()
 	case 4, 5:
-		b = c.Ante + c.BB*int64(rapid.IntRange(1, 10).Draw(rt, "bbs")) + int64(rapid.IntRange(0, 2).Draw(rt, "odd"))
+		b = c.Ante + c.unit()*int64(rapid.IntRange(1, 10).Draw(rt, "bbs")) + int64(rapid.IntRange(0, 2).Draw(rt, "odd"))
 	case 6:
-		b = c.BB * int64(rapid.IntRange(20, 200).Draw(rt, "deep"))
+		b = c.unit() * int64(rapid.IntRange(20, 200).Draw(rt, "deep"))
 	case 7:
 		b = c.Ante + c.DB + jit()
 	}
